@@ -11,44 +11,53 @@ D(ty, tag) == [ty |-> ty, tag |-> tag]
 Tags == am.vs
 Step == nops < MAXOPS /\ nops' = nops + 1
 SameLists(m, tags) == [k \in 1..Len(tags) |-> tags[k]]
-OpAdd == /\ Step /\ nt <= MAXTAG
-         /\ \E ty \in {"Z", "B"} :
+\* every operation with its arguments explicit (OpXP), so that MC_BackendsReplay can log which one was taken
+OpAddP(ty) == /\ Step /\ nt <= MAXTAG
               /\ vm' = VAdd(vm, D(ty, nt)).m /\ hm' = HAdd(hm, D(ty, nt)).m /\ am' = AAdd(am, nt, D(ty, nt))
-         /\ nt' = nt + 1 /\ UNCHANGED ok
+              /\ nt' = nt + 1 /\ UNCHANGED ok
+OpAdd == \E ty \in {"Z", "B"} : OpAddP(ty)
 \* named insertion with a name that has the same status in both backends: same success/failure
-OpAddNamed == /\ Step /\ nt <= MAXTAG
-              /\ \E n \in 0..MAXNAME : VLive(vm, n) = HLive(hm, n) /\
-                   LET rv == VAddNamed(vm, n, D("Z", nt))  rh == HAddNamed(hm, n, D("Z", nt)) IN
-                   /\ vm' = rv.m /\ hm' = rh.m /\ ok' = (ok /\ rv.ret = rh.ret /\ (rv.ret = "ok") = ~VLive(vm, n))
-                   /\ am' = IF rv.ret = "ok" THEN AAdd(am, nt, D("Z", nt)) ELSE am
-              /\ nt' = nt + 1
+OpAddNamedP(n) == /\ Step /\ nt <= MAXTAG /\ VLive(vm, n) = HLive(hm, n)
+                  /\ LET rv == VAddNamed(vm, n, D("Z", nt))  rh == HAddNamed(hm, n, D("Z", nt)) IN
+                       /\ vm' = rv.m /\ hm' = rh.m /\ ok' = (ok /\ rv.ret = rh.ret /\ (rv.ret = "ok") = ~VLive(vm, n))
+                       /\ am' = IF rv.ret = "ok" THEN AAdd(am, nt, D("Z", nt)) ELSE am
+                  /\ nt' = nt + 1
+OpAddNamed == \E n \in 0..MAXNAME : OpAddNamedP(n)
 \* valid usage: a vertex listed as input/output is taken off those lists before it is deleted (the code
 \* keeps dangling names in the lists, and the vector backend would later hand the name to a new vertex)
-OpRemove == /\ Step /\ \E t \in Tags \ (ToSet(am.ins) \cup ToSet(am.outs)) :
-                 vm' = VRemove(vm, VNameOf(vm, t)).m /\ hm' = HRemove(hm, HNameOf(hm, t)).m /\ am' = ARemove(am, t)
-            /\ UNCHANGED <<nt, ok>>
-OpAddEdge == /\ Step /\ \E s, t \in Tags : \E ety \in {"N", "H"} : s # t /\ {s, t} \notin DOMAIN am.et /\
-                 /\ vm' = VAddEdge(vm, VNameOf(vm, s), VNameOf(vm, t), ety).m
-                 /\ hm' = HAddEdge(hm, HNameOf(hm, s), HNameOf(hm, t), ety).m /\ am' = AAddEdge(am, s, t, ety)
-             /\ UNCHANGED <<nt, ok>>
-OpRemoveEdge == /\ Step /\ \E e \in DOMAIN am.et : LET s == Min(e)  t == Max(e) IN
-                    /\ vm' = VRemoveEdge(vm, VNameOf(vm, s), VNameOf(vm, t)).m
-                    /\ hm' = HRemoveEdge(hm, HNameOf(hm, s), HNameOf(hm, t)).m /\ am' = ARemoveEdge(am, s, t)
+Removable == Tags \ (ToSet(am.ins) \cup ToSet(am.outs))
+OpRemoveP(t) == /\ Step /\ t \in Removable
+                /\ vm' = VRemove(vm, VNameOf(vm, t)).m /\ hm' = HRemove(hm, HNameOf(hm, t)).m /\ am' = ARemove(am, t)
                 /\ UNCHANGED <<nt, ok>>
-OpSetEType == /\ Step /\ \E e \in DOMAIN am.et : LET s == Max(e)  t == Min(e)  ety == IF am.et[e] = "N" THEN "H" ELSE "N" IN
-                    /\ vm' = VSetEType(vm, VNameOf(vm, s), VNameOf(vm, t), ety).m
-                    /\ hm' = HSetEType(hm, HNameOf(hm, s), HNameOf(hm, t), ety).m /\ am' = AAddEdge(am, s, t, ety)
-              /\ UNCHANGED <<nt, ok>>
-OpSetBoundary == /\ Step /\ \E i, o \in Tags :
-                    /\ vm' = [vm EXCEPT !.ins = <<VNameOf(vm, i)>>, !.outs = <<VNameOf(vm, o)>>]
-                    /\ hm' = [hm EXCEPT !.ins = <<HNameOf(hm, i)>>, !.outs = <<HNameOf(hm, o)>>]
-                    /\ am' = [am EXCEPT !.ins = <<i>>, !.outs = <<o>>]
-                 /\ UNCHANGED <<nt, ok>>
+OpRemove == \E t \in Removable : OpRemoveP(t)
+OpAddEdgeP(s, t, ety) == /\ Step /\ s # t /\ {s, t} \notin DOMAIN am.et
+                         /\ vm' = VAddEdge(vm, VNameOf(vm, s), VNameOf(vm, t), ety).m
+                         /\ hm' = HAddEdge(hm, HNameOf(hm, s), HNameOf(hm, t), ety).m /\ am' = AAddEdge(am, s, t, ety)
+                         /\ UNCHANGED <<nt, ok>>
+OpAddEdge == \E s, t \in Tags : \E ety \in {"N", "H"} : OpAddEdgeP(s, t, ety)
+OpRemoveEdgeP(e) == /\ Step /\ LET s == Min(e)  t == Max(e) IN
+                       /\ vm' = VRemoveEdge(vm, VNameOf(vm, s), VNameOf(vm, t)).m
+                       /\ hm' = HRemoveEdge(hm, HNameOf(hm, s), HNameOf(hm, t)).m /\ am' = ARemoveEdge(am, s, t)
+                    /\ UNCHANGED <<nt, ok>>
+OpRemoveEdge == \E e \in DOMAIN am.et : OpRemoveEdgeP(e)
+Flip(e) == IF am.et[e] = "N" THEN "H" ELSE "N"
+OpSetETypeP(e) == /\ Step /\ LET s == Max(e)  t == Min(e)  ety == Flip(e) IN
+                     /\ vm' = VSetEType(vm, VNameOf(vm, s), VNameOf(vm, t), ety).m
+                     /\ hm' = HSetEType(hm, HNameOf(hm, s), HNameOf(hm, t), ety).m /\ am' = AAddEdge(am, s, t, ety)
+                  /\ UNCHANGED <<nt, ok>>
+OpSetEType == \E e \in DOMAIN am.et : OpSetETypeP(e)
+OpSetBoundaryP(i, o) == /\ Step
+                        /\ vm' = [vm EXCEPT !.ins = <<VNameOf(vm, i)>>, !.outs = <<VNameOf(vm, o)>>]
+                        /\ hm' = [hm EXCEPT !.ins = <<HNameOf(hm, i)>>, !.outs = <<HNameOf(hm, o)>>]
+                        /\ am' = [am EXCEPT !.ins = <<i>>, !.outs = <<o>>]
+                        /\ UNCHANGED <<nt, ok>>
+OpSetBoundary == \E i, o \in Tags : OpSetBoundaryP(i, o)
 \* the code's pack renumbers inputs/outputs through a table that is only meaningful for live names
 BoundaryLive == (\A k \in 1..Len(am.ins) : am.ins[k] \in Tags) /\ (\A j \in 1..Len(am.outs) : am.outs[j] \in Tags)
-OpPack == /\ Step /\ BoundaryLive /\ \E force \in BOOLEAN :
-               vm' = VPack(vm, force).m /\ hm' = HPack(hm, force).m
-          /\ UNCHANGED <<am, nt, ok>>
+OpPackP(force) == /\ Step /\ BoundaryLive
+                  /\ vm' = VPack(vm, force).m /\ hm' = HPack(hm, force).m
+                  /\ UNCHANGED <<am, nt, ok>>
+OpPack == \E force \in BOOLEAN : OpPackP(force)
 Next == OpAdd \/ OpAddNamed \/ OpRemove \/ OpAddEdge \/ OpRemoveEdge \/ OpSetEType \/ OpSetBoundary \/ OpPack
 VInv == VecInv(vm)
 HInv == HashInv(hm)
